@@ -314,6 +314,7 @@ Proof.
   - destruct (find_proc _ w) as [p|]; [|discriminate]. inv_binds H. inversion H; subst. eapply CB_same; [| |exact HC]; reflexivity.
   - destruct (find_proc _ w) as [p|]; [|discriminate]. inversion H; subst. eapply CB_same; [| |exact HC]; reflexivity.
   - inversion H; subst. eapply CB_same; [| |exact HC]; reflexivity.
+  - inv_binds H. inversion H; subst. eapply CB_same; [| |exact HC]; reflexivity.
 Qed.
 
 Lemma CB_outs s o1 o2 : CB (s, o1) -> CB (s, o2).
